@@ -726,6 +726,26 @@ fn small_bigset() -> BoxedStrategy<BigSet> {
         .boxed()
 }
 
+/// Vectors whose serialized size sits on the block sizes that buffered I/O code likes (512 / 1024 / 2048 elements, 4096 / 8192
+/// bytes), and next to them: an off-by-one in a block loop only shows at an exact multiple.
+fn block_vec() -> BoxedStrategy<Vec<u64>> {
+    (prop_oneof![Just(511usize), Just(512), Just(513), Just(1023), Just(1024), Just(1025), Just(1535), Just(1536), Just(2047), Just(2048)], any::<u64>())
+        .prop_map(|(n, seed)| {
+            let mut x = SplitMix::new(seed);
+            (0..n).map(|_| x.next()).collect()
+        })
+        .boxed()
+}
+
+fn block_bytes() -> BoxedStrategy<Vec<u8>> {
+    (prop_oneof![Just(4087usize), Just(4088), Just(4095), Just(4096), Just(4097), Just(8184), Just(8191), Just(8192), Just(8193)], any::<u64>())
+        .prop_map(|(n, seed)| {
+            let mut x = SplitMix::new(seed);
+            (0..n).map(|_| x.next() as u8).collect()
+        })
+        .boxed()
+}
+
 /// Values of every serializable type; `max_bits` bounds the bit-sequence based structures.
 pub fn leaf(max_bits: usize) -> BoxedStrategy<Leaf> {
     let bits = bits_spec(max_bits);
@@ -735,6 +755,8 @@ pub fn leaf(max_bits: usize) -> BoxedStrategy<Leaf> {
         1 => word.clone().prop_map(Leaf::U64),
         1 => (any::<u64>(), any::<u64>()).prop_map(|(a, b)| Leaf::Pair(a, b)),
         2 => proptest::collection::vec(word.clone(), 0..40).prop_map(Leaf::VecU64),
+        1 => block_vec().prop_map(Leaf::VecU64),
+        1 => block_bytes().prop_map(Leaf::Bytes),
         1 => proptest::collection::vec(word.clone(), 0..40).prop_map(Leaf::VecUsize),
         2 => proptest::collection::vec((any::<u64>(), any::<u64>()), 0..20).prop_map(Leaf::VecPair),
         3 => proptest::collection::vec(any::<u8>(), 0..70).prop_map(Leaf::Bytes),
@@ -768,6 +790,8 @@ pub fn mappable_spec(max_bits: usize) -> BoxedStrategy<ValSpec> {
     let word = prop_oneof![any::<u64>(), 0u64..4, Just(u64::MAX)];
     let leaf = prop_oneof![
         3 => proptest::collection::vec(word.clone(), 0..40).prop_map(Leaf::VecU64),
+        1 => block_vec().prop_map(Leaf::VecU64),
+        1 => block_bytes().prop_map(Leaf::Bytes),
         1 => proptest::collection::vec(word.clone(), 0..40).prop_map(Leaf::VecUsize),
         2 => proptest::collection::vec((any::<u64>(), any::<u64>()), 0..20).prop_map(Leaf::VecPair),
         3 => proptest::collection::vec(any::<u8>(), 0..70).prop_map(Leaf::Bytes),
